@@ -264,10 +264,10 @@ static void s_null_format_clean_up(struct aws_log_formatter *formatter) {
 }
 static struct aws_log_formatter_vtable s_null_format_vtable = {.format = s_null_format, .clean_up = s_null_format_clean_up};
 
-static void s_init_pipe(int which, int level) {
+static void s_init_pipe(int which, int level, int date_format) {
     struct pipe_logger *p = &s_pipe[which];
     HC_CHECK(!p->have);
-    struct aws_log_formatter_standard_options fo = {.date_format = AWS_DATE_FORMAT_ISO_8601};
+    struct aws_log_formatter_standard_options fo = {.date_format = (enum aws_date_format)date_format};
     if (which == 2) {
         p->formatter.vtable = &s_null_format_vtable;
         p->formatter.allocator = hc_allocator();
@@ -306,6 +306,7 @@ static void s_log_shaped(struct aws_logger *lg, int level, uint32_t subject, siz
         shape = 0;
     }
     aws_logger_set(lg);
+    volatile int odd = level & 1;
     struct aws_logger *cl = NULL;
     if (cond) {
         cl = aws_logger_get_conditional(subject, (enum aws_log_level)level);
@@ -318,7 +319,8 @@ static void s_log_shaped(struct aws_logger *lg, int level, uint32_t subject, siz
                 AWS_LOGUF(cl, (enum aws_log_level)level, subject, __VA_ARGS__);                                        \
             }                                                                                                          \
         } else {                                                                                                       \
-            AWS_LOGF((enum aws_log_level)level, subject, __VA_ARGS__);                                                 \
+            /* level and subject as NON-PRIMARY expressions (conditional selection), as a caller may write them */        \
+            AWS_LOGF(odd ? (enum aws_log_level)level : (enum aws_log_level)(level + 0), odd ? subject : subject + 0, __VA_ARGS__); \
         }                                                                                                              \
     } while (0)
     switch (shape) {
@@ -641,7 +643,27 @@ static void *s_worker_main(void *arg) {
             }
         } else if (!strcmp(t[0], "fmt") && n == 7) {
             s_op_fmt(t);
-        } else if (!strcmp(t[0], "init") && n == 3 && strlen(t[1]) == 1 && strchr("abcn", t[1][0])) {
+        } else if (!strcmp(t[0], "initfail") && n == 2 && strlen(t[1]) == 1 && strchr("snw", t[1][0])) {
+            /* a file name that cannot be opened: the init must fail and keep nothing */
+            const char *bad = "/nonexistent_dir_verif_c14/x.log";
+            long live0 = hc_live_blocks();
+            int fds0 = s_open_fds();
+            int rc;
+            if (t[1][0] == 's') {
+                struct aws_logger lg;
+                struct aws_logger_standard_options o = {.level = AWS_LL_TRACE, .filename = bad, .file = NULL};
+                rc = aws_logger_init_standard(&lg, hc_allocator(), &o);
+            } else if (t[1][0] == 'n') {
+                struct aws_logger lg;
+                struct aws_logger_standard_options o = {.level = AWS_LL_TRACE, .filename = bad, .file = NULL};
+                rc = aws_logger_init_noalloc(&lg, hc_allocator(), &o);
+            } else {
+                struct aws_log_writer w;
+                struct aws_log_writer_file_options wo = {.filename = bad, .file = NULL};
+                rc = aws_log_writer_init_file(&w, hc_allocator(), &wo);
+            }
+            printf("P initfail rc=%s live=%ld fds=%d\n", rc == AWS_OP_SUCCESS ? "OK" : "ERR", hc_live_blocks() - live0, s_open_fds() - fds0);
+        } else if (!strcmp(t[0], "init") && (n == 3 || n == 4) && strlen(t[1]) == 1 && strchr("abcn", t[1][0])) {
             int level = atoi(t[2]);
             if (t[1][0] == 'n') {
                 if (s_have_noalloc) {
@@ -658,7 +680,7 @@ static void *s_worker_main(void *arg) {
                     printf("bad-op\n");
                     continue;
                 }
-                s_init_pipe(t[1][0] - 'a', level);
+                s_init_pipe(t[1][0] - 'a', level, n == 4 ? atoi(t[3]) : AWS_DATE_FORMAT_ISO_8601);
             }
         } else if (!strcmp(t[0], "setlevel") && n == 3 && strlen(t[1]) == 1 && strchr("abcn", t[1][0])) {
             struct aws_logger *lg = t[1][0] == 'n' ? (s_have_noalloc ? &s_noalloc : NULL)
